@@ -42,19 +42,22 @@ class ActBase(BaseException):
     pass
 
 
-def _callable_object(inner: Any) -> Any:
+def _callable_object(inner: Any, unhashable: bool = False) -> Any:
     import inspect
 
+    extra: dict[str, Any] = {}
+    if unhashable:
+        # defining __eq__ without __hash__ makes instances unhashable (think: a dataclass with __call__)
+        extra["__eq__"] = lambda self, other: self is other
+        extra["__hash__"] = None
     if inspect.iscoroutinefunction(inner):
-        class _AsyncStopper:
-            async def __call__(self) -> None:
-                await inner()
-        return _AsyncStopper()
+        async def acall(self: Any) -> None:
+            await inner()
+        return type("_AsyncStopper", (), {"__call__": acall, **extra})()
 
-    class _Stopper:
-        def __call__(self) -> None:
-            inner()
-    return _Stopper()
+    def call(self: Any) -> None:
+        inner()
+    return type("_Stopper", (), {"__call__": call, **extra})()
 
 
 @st.composite
@@ -257,7 +260,7 @@ class Interp:
                             raise ActBase(f"action {i}")
                     if callable(action) and reg.get("shape") == "object":
                         # a callable object (an instance of a class with __call__) is a callable too
-                        action = _callable_object(action)
+                        action = _callable_object(action, unhashable=bool(i % 2))
                     elif callable(action) and reg.get("shape") == "partial":
                         import functools
 
